@@ -25,6 +25,9 @@ type c01Pre struct {
 
 func (m *c01Mon) Before(w *world.World, op world.Op) interface{} {
 	p := c01Pre{expect: "ok"}
+	if op.Kind == world.OpPersistFail {
+		p.expect = "any" // the environment is made to fail: an error is the expected answer, and it must leave the map alone
+	}
 	if op.Kind == world.OpDel {
 		v, ok := w.Model[op.A][op.K]
 		if !ok || v != op.V {
@@ -38,7 +41,7 @@ func (m *c01Mon) After(w *world.World, op world.Op, res world.Res, pre interface
 	p := pre.(c01Pre)
 	opn := op.Kind
 	name := map[world.OpKind]string{world.OpIns: "Insert", world.OpDel: "Delete", world.OpPersist: "MakeRoot", world.OpReload: "MakeRoot+LoadMast",
-		world.OpReloadJSON: "MakeRoot+LoadMast", world.OpClone: "Clone", world.OpGet: "Get", world.OpIter: "Iter", world.OpKeep: "MakeRoot", world.OpLoad: "LoadMast", world.OpLoadNoCache: "LoadMast", world.OpCursor: "Cursor"}[opn]
+		world.OpReloadJSON: "MakeRoot+LoadMast", world.OpClone: "Clone", world.OpGet: "Get", world.OpIter: "Iter", world.OpKeep: "MakeRoot", world.OpLoad: "LoadMast", world.OpLoadNoCache: "LoadMast", world.OpCursor: "Cursor", world.OpPersistFail: "failing-MakeRoot"}[opn]
 	var out []explore.Finding
 	rc := resClass(res)
 	if res.Panic != nil {
@@ -160,6 +163,9 @@ func C01Configs(thorough bool) []*world.Config {
 	add(world.IntCfg(4, []int{1, 2, 3, 4, 8}, []interface{}{&world.TVal{Tags: []string{"x"}}, &world.TVal{Tags: []string{"y", "z"}}}, &world.TVal{}, M, "none"))
 	add(world.IntCfg(2, []int{1, 2, 3, 4}, []interface{}{world.IVal{Name: "a", Extra: []interface{}{"x"}}, world.IVal{Name: "a", Extra: map[string]interface{}{"k": "v"}}}, world.IVal{}, M, "none"))
 	add(world.IntCfg(2, []int{1, 2, 3, 4}, []interface{}{world.IVal{Name: "a", Extra: []interface{}{"x"}}, world.IVal{Name: "b", Extra: "s"}}, world.IVal{}, B, "none"))
+	// values that differ only as nil versus empty: a delete with the other one must fail, an update must take effect
+	add(world.IntCfg(2, []int{1, 2, 3, 4}, []interface{}{[]byte(nil), []byte{}, []byte{0}}, []byte{}, B, "none"))
+	add(world.IntCfg(2, []int{1, 2, 4}, []interface{}{map[string]int(nil), map[string]int{}}, map[string]int{}, M, "none"))
 	add(world.Int64Cfg(2, []int64{-8, -3, 0, 2, 4, 1 << 40}, B, "none"))
 	add(world.Uint64Cfg(2, []uint64{0, 1, 2, 4, 1<<53 + 1, 1 << 63}, B, "none"))
 	add(world.Wide(world.UintCfg(2, u(1, 5), 1, B, "none")))
